@@ -176,10 +176,10 @@ impl Stmt {
 
 
 pub fn type_name(ty: u32) -> &'static str {
-    match ty { 1 => "Person", 2 => "Preference", _ => "Spaceship" }
+    match ty { 1 => "Person", 2 => "Preference", 3 => "Gadget", _ => "Spaceship" }
 }
 pub fn type_code(schema_ref: &str) -> u32 {
-    match schema_ref.rsplit('/').next().unwrap_or("") { "Person" => 1, "Preference" => 2, "" => 0, _ => 99 }
+    match schema_ref.rsplit('/').next().unwrap_or("") { "Person" => 1, "Preference" => 2, "Gadget" => 3, "" => 0, _ => 99 }
 }
 pub fn pred_name(p: u32) -> &'static str {
     match p { 5 => "prefers", 7 => "same_as", _ => "no_such_predicate" }
@@ -292,6 +292,8 @@ pub struct Known {
     pub pending: Vec<String>,
     /// every non-shell element: (id, version, some other row refers to it)
     pub all: Vec<(String, u64, bool)>,
+    /// the second Schema Environment (with the extra package: type `Gadget`, predicate `likes`) is in force
+    pub env_b: bool,
 }
 
 /// the actions of one UPDATE: one family alone (often Facet-only: the decay sweep), or a mix
@@ -337,7 +339,7 @@ pub fn gen_stmt(r: &mut Rng, known: &Known) -> Stmt {
         let c = match choice {
             0..=21 => {
                 let h = next_h; next_h += 1;
-                let ty = 1 + r.below(2) as u32;
+                let ty = if known.env_b && r.chance(1, 4) { 3 } else { 1 + r.below(2) as u32 };
                 hs.push((h, 'C', ty));
                 Clause::Cc { h, ty, key: if r.chance(3, 5) { 1 + r.below(keys as u64) as u32 } else { 0 }, val: 1 + r.below(6) as u32, bad: want_bad }
             }
